@@ -1,5 +1,10 @@
 //! AbsDiffEq / RelativeEq / UlpsEq on vectors, matrices (both layouts) and quaternions hold exactly
 //! when the scalar predicate holds for every pair of corresponding elements with the same tolerances.
+//!
+//! Operand forms: two distinct objects (`a.op(&b)`), the SAME object (`a.op(&a)`: an identity
+//! early-out is wrong whenever a lane is not approximately equal to itself — NaN, inf under
+//! abs_diff_eq, a negative or NaN epsilon), and a bitwise copy held in another variable.
+//! Every `_eq` is accompanied by its `_ne` (the trait's own, overridable, method), and by `==` / `!=`.
 
 use crate::io::*;
 use crate::vec_table;
@@ -18,7 +23,12 @@ pub trait ApproxS:
     const INF: Self;
     const NAN: Self;
     const MAXV: Self;
+    const MINPOS: Self;
     fn tiny() -> Self;
+    /// NaN with the sign bit set
+    fn neg_nan() -> Self;
+    fn is_nan_(self) -> bool;
+    fn is_inf_(self) -> bool;
 }
 macro_rules! approx_s {
     ($($t:ident $u:ident)+) => { $(
@@ -30,7 +40,11 @@ macro_rules! approx_s {
             const INF: Self = <$t>::INFINITY;
             const NAN: Self = <$t>::NAN;
             const MAXV: Self = <$t>::MAX;
+            const MINPOS: Self = <$t>::MIN_POSITIVE;
             fn tiny() -> Self { <$t>::from_bits(1) }
+            fn neg_nan() -> Self { -<$t>::NAN }
+            fn is_nan_(self) -> bool { self.is_nan() }
+            fn is_inf_(self) -> bool { self.is_infinite() }
         }
     )+ };
 }
@@ -78,27 +92,110 @@ fn rel_set<F: ApproxS>() -> [F; 5] {
 }
 const ULPS_SET: [u32; 6] = [0, 1, 4, 5, 16, 1000];
 
-pub trait ApproxC<F: ApproxS, const K: usize>: Flat<F, K> + AbsDiffEq<Epsilon = F> + RelativeEq + UlpsEq {}
-impl<F: ApproxS, const K: usize, C> ApproxC<F, K> for C where C: Flat<F, K> + AbsDiffEq<Epsilon = F> + RelativeEq + UlpsEq {}
+// Unusual tolerances: nothing in approx's docs restricts them, the scalar impl accepts them and is the rule.
+pub const N_EPS_W: usize = 13;
+pub const N_REL_W: usize = 10;
+pub const N_ULPS_W: usize = 9;
+fn eps_wide<F: ApproxS>() -> [F; N_EPS_W] {
+    let z = F::f(0.0);
+    [z, F::f(-0.0), F::tiny(), F::EPS, F::f(1e-3), F::f(1.0), F::MAXV, F::INF, z - F::EPS, F::f(-1.0), z - F::INF, F::NAN, F::f(2.5)]
+}
+fn rel_wide<F: ApproxS>() -> [F; N_REL_W] {
+    [F::f(0.0), F::EPS, F::f(1e-3), F::f(0.6), F::f(1.0), F::f(1.5), F::f(1e10), F::INF, F::f(-1.0), F::NAN]
+}
+const ULPS_WIDE: [u32; N_ULPS_W] = [0, 1, 4, 1000, i32::MAX as u32 - 1, i32::MAX as u32, 1 << 31, u32::MAX - 1, u32::MAX];
 
+pub trait ApproxC<F: ApproxS, const K: usize>: Flat<F, K> + PartialEq + AbsDiffEq<Epsilon = F> + RelativeEq + UlpsEq {}
+impl<F: ApproxS, const K: usize, C> ApproxC<F, K> for C where C: Flat<F, K> + PartialEq + AbsDiffEq<Epsilon = F> + RelativeEq + UlpsEq {}
+
+#[derive(Default)]
 struct Seen {
     t: bool,
     f: bool,
 }
+impl Seen {
+    fn put(&mut self, want: bool) {
+        if want { self.t = true; } else { self.f = true; }
+    }
+}
 
-/// All three predicates with the given tolerances against the conjunction of the scalar predicate.
-fn judge<F: ApproxS, C: ApproxC<F, K>, const K: usize>(cx: &mut Cx, a: &[F; K], b: &[F; K], eps: F, rel: F, ulps: u32, seen: &mut Seen) -> CaseResult {
-    let (ca, cb) = (C::mkf(a), C::mkf(b));
+/// The operands of one judgement: `l.op(r, ..)`; `a` / `b` are the element values of `*l` / `*r`
+/// (for the aliased form `r` IS `l` and `b == a` bit for bit).
+struct Ops<'x, F, C, const K: usize> {
+    l: &'x C,
+    r: &'x C,
+    a: &'x [F; K],
+    b: &'x [F; K],
+    form: &'static str,
+}
+
+fn j_abs<F: ApproxS, C: ApproxC<F, K>, const K: usize>(cx: &mut Cx, o: &Ops<F, C, K>, eps: F, seen: &mut Seen) -> CaseResult {
+    let (a, b) = (o.a, o.b);
     let want = (0..K).all(|i| F::abs_diff_eq(&a[i], &b[i], eps));
-    check_eq!(cx, ca.abs_diff_eq(&cb, eps), want, "{}<{}>::abs_diff_eq eps={:?}\n a={:?}\n b={:?}\n per element {:?}", C::NAME, F::NAME, eps, a, b, (0..K).map(|i| F::abs_diff_eq(&a[i], &b[i], eps)).collect::<Vec<_>>());
-    check_eq!(cx, ca.abs_diff_ne(&cb, eps), !want, "{}<{}>::abs_diff_ne eps={:?} a={:?} b={:?}", C::NAME, F::NAME, eps, a, b);
-    if want { seen.t = true; } else { seen.f = true; }
+    check_eq!(cx, o.l.abs_diff_eq(o.r, eps), want, "{}<{}>::abs_diff_eq [{}] eps={:?}\n a={:?}\n b={:?}\n per element {:?}", C::NAME, F::NAME, o.form, eps, a, b, (0..K).map(|i| F::abs_diff_eq(&a[i], &b[i], eps)).collect::<Vec<_>>());
+    check_eq!(cx, o.l.abs_diff_ne(o.r, eps), !want, "{}<{}>::abs_diff_ne [{}] eps={:?} a={:?} b={:?}", C::NAME, F::NAME, o.form, eps, a, b);
+    seen.put(want);
+    Ok(())
+}
+fn j_rel<F: ApproxS, C: ApproxC<F, K>, const K: usize>(cx: &mut Cx, o: &Ops<F, C, K>, eps: F, rel: F, seen: &mut Seen) -> CaseResult {
+    let (a, b) = (o.a, o.b);
     let want = (0..K).all(|i| F::relative_eq(&a[i], &b[i], eps, rel));
-    check_eq!(cx, ca.relative_eq(&cb, eps, rel), want, "{}<{}>::relative_eq eps={:?} max_relative={:?}\n a={:?}\n b={:?}\n per element {:?}", C::NAME, F::NAME, eps, rel, a, b, (0..K).map(|i| F::relative_eq(&a[i], &b[i], eps, rel)).collect::<Vec<_>>());
-    if want { seen.t = true; } else { seen.f = true; }
+    check_eq!(cx, o.l.relative_eq(o.r, eps, rel), want, "{}<{}>::relative_eq [{}] eps={:?} max_relative={:?}\n a={:?}\n b={:?}\n per element {:?}", C::NAME, F::NAME, o.form, eps, rel, a, b, (0..K).map(|i| F::relative_eq(&a[i], &b[i], eps, rel)).collect::<Vec<_>>());
+    check_eq!(cx, o.l.relative_ne(o.r, eps, rel), !want, "{}<{}>::relative_ne [{}] eps={:?} max_relative={:?} a={:?} b={:?}", C::NAME, F::NAME, o.form, eps, rel, a, b);
+    seen.put(want);
+    Ok(())
+}
+fn j_ulps<F: ApproxS, C: ApproxC<F, K>, const K: usize>(cx: &mut Cx, o: &Ops<F, C, K>, eps: F, ulps: u32, seen: &mut Seen) -> CaseResult {
+    let (a, b) = (o.a, o.b);
     let want = (0..K).all(|i| F::ulps_eq(&a[i], &b[i], eps, ulps));
-    check_eq!(cx, ca.ulps_eq(&cb, eps, ulps), want, "{}<{}>::ulps_eq eps={:?} max_ulps={}\n a={:?}\n b={:?}\n per element {:?}", C::NAME, F::NAME, eps, ulps, a, b, (0..K).map(|i| F::ulps_eq(&a[i], &b[i], eps, ulps)).collect::<Vec<_>>());
-    if want { seen.t = true; } else { seen.f = true; }
+    check_eq!(cx, o.l.ulps_eq(o.r, eps, ulps), want, "{}<{}>::ulps_eq [{}] eps={:?} max_ulps={}\n a={:?}\n b={:?}\n per element {:?}", C::NAME, F::NAME, o.form, eps, ulps, a, b, (0..K).map(|i| F::ulps_eq(&a[i], &b[i], eps, ulps)).collect::<Vec<_>>());
+    check_eq!(cx, o.l.ulps_ne(o.r, eps, ulps), !want, "{}<{}>::ulps_ne [{}] eps={:?} max_ulps={} a={:?} b={:?}", C::NAME, F::NAME, o.form, eps, ulps, a, b);
+    seen.put(want);
+    Ok(())
+}
+/// `==` / `!=`: all lanes `==` / some lane `!=` by the scalar's own PartialEq (NaN != NaN, 0 == -0).
+fn j_peq<F: ApproxS, C: ApproxC<F, K>, const K: usize>(cx: &mut Cx, o: &Ops<F, C, K>) -> CaseResult {
+    let (a, b) = (o.a, o.b);
+    let want = (0..K).all(|i| a[i] == b[i]);
+    check_eq!(cx, *o.l == *o.r, want, "{}<{}>: `==` [{}] a={:?} b={:?}", C::NAME, F::NAME, o.form, a, b);
+    check_eq!(cx, *o.l != *o.r, (0..K).any(|i| a[i] != b[i]), "{}<{}>: `!=` [{}] a={:?} b={:?}", C::NAME, F::NAME, o.form, a, b);
+    Ok(())
+}
+
+/// All three predicates (and their `_ne`) with one tolerance triple.
+fn judge_ops<F: ApproxS, C: ApproxC<F, K>, const K: usize>(cx: &mut Cx, o: &Ops<F, C, K>, eps: F, rel: F, ulps: u32, seen: &mut Seen) -> CaseResult {
+    j_abs(cx, o, eps, seen)?;
+    j_rel(cx, o, eps, rel, seen)?;
+    j_ulps(cx, o, eps, ulps, seen)
+}
+
+/// The unusual tolerances: every epsilon with abs_diff, every (epsilon, max_relative), every (epsilon, max_ulps).
+fn judge_wide<F: ApproxS, C: ApproxC<F, K>, const K: usize>(cx: &mut Cx, o: &Ops<F, C, K>, seen: &mut Seen) -> CaseResult {
+    for eps in eps_wide::<F>() {
+        j_abs(cx, o, eps, seen)?;
+        for rel in rel_wide::<F>() {
+            j_rel(cx, o, eps, rel, seen)?;
+        }
+        for ulps in ULPS_WIDE {
+            j_ulps(cx, o, eps, ulps, seen)?;
+        }
+    }
+    Ok(())
+}
+
+/// The approx crate's own front ends (what `assert_relative_eq!(v, w)` etc. expand to), default tolerances.
+fn judge_macros<F: ApproxS, C: ApproxC<F, K>, const K: usize>(cx: &mut Cx, o: &Ops<F, C, K>) -> CaseResult {
+    let (a, b) = (o.a, o.b);
+    let (de, dr, du) = (F::default_epsilon(), F::default_max_relative(), F::default_max_ulps());
+    let want = (0..K).all(|i| F::abs_diff_eq(&a[i], &b[i], de));
+    check_eq!(cx, approx::abs_diff_eq!(*o.l, *o.r), want, "abs_diff_eq!({}<{}>) [{}] a={:?} b={:?}", C::NAME, F::NAME, o.form, a, b);
+    check_eq!(cx, approx::abs_diff_ne!(*o.l, *o.r), !want, "abs_diff_ne!({}<{}>) [{}] a={:?} b={:?}", C::NAME, F::NAME, o.form, a, b);
+    let want = (0..K).all(|i| F::relative_eq(&a[i], &b[i], de, dr));
+    check_eq!(cx, approx::relative_eq!(*o.l, *o.r), want, "relative_eq!({}<{}>) [{}] a={:?} b={:?}", C::NAME, F::NAME, o.form, a, b);
+    check_eq!(cx, approx::relative_ne!(*o.l, *o.r), !want, "relative_ne!({}<{}>) [{}] a={:?} b={:?}", C::NAME, F::NAME, o.form, a, b);
+    let want = (0..K).all(|i| F::ulps_eq(&a[i], &b[i], de, du));
+    check_eq!(cx, approx::ulps_eq!(*o.l, *o.r), want, "ulps_eq!({}<{}>) [{}] a={:?} b={:?}", C::NAME, F::NAME, o.form, a, b);
+    check_eq!(cx, approx::ulps_ne!(*o.l, *o.r), !want, "ulps_ne!({}<{}>) [{}] a={:?} b={:?}", C::NAME, F::NAME, o.form, a, b);
     Ok(())
 }
 
@@ -133,15 +230,23 @@ pub fn one_lane<F: ApproxS, C: ApproxC<F, K>, const K: usize>(idx: u64, cx: &mut
     sample!(cx, "{}<{}> position {} differs ({}): a={:?} b={:?}; all tolerance combinations", C::NAME, F::NAME, p, label, a, b);
     cx.label(label);
     defaults::<F, C, K>(cx)?;
-    let mut seen = Seen { t: false, f: false };
+    let (ca, cb) = (C::mkf(&a), C::mkf(&b));
+    let o = Ops { l: &ca, r: &cb, a: &a, b: &b, form: "two objects" };
+    let mut seen = Seen::default();
     for eps in eps_set::<F>() {
         for rel in rel_set::<F>() {
             for ulps in ULPS_SET {
-                judge::<F, C, K>(cx, &a, &b, eps, rel, ulps, &mut seen)?;
+                judge_ops(cx, &o, eps, rel, ulps, &mut seen)?;
             }
         }
     }
-    judge::<F, C, K>(cx, &a, &b, F::default_epsilon(), F::default_max_relative(), F::default_max_ulps(), &mut seen)?;
+    judge_ops(cx, &o, F::default_epsilon(), F::default_max_relative(), F::default_max_ulps(), &mut seen)?;
+    // unusual tolerances (negative / NaN / inf epsilon, max_relative 0 / >1 / NaN, max_ulps up to u32::MAX)
+    let mut seen_wide = Seen::default();
+    judge_wide(cx, &o, &mut seen_wide)?;
+    judge_macros(cx, &o)?;
+    j_peq(cx, &o)?;
+    if seen_wide.t { cx.label("holds-for-some-unusual-tolerance"); }
     if seen.f { cx.label("varied-position-decides-false"); }
     if seen.t { cx.label("holds-for-some-tolerance"); }
     // the other positions are identical, so a `false` is decided by the varied position alone
@@ -150,6 +255,7 @@ pub fn one_lane<F: ApproxS, C: ApproxC<F, K>, const K: usize>(idx: u64, cx: &mut
 }
 
 /// Every position draws its own kind (mostly "equal"); single tolerance triple from the tape.
+/// Regimes: ordinary tolerances / unusual tolerances; two objects / the same object / a bitwise copy.
 pub fn mixed<F: ApproxS, C: ApproxC<F, K>, const K: usize>(t: &mut Tape, cx: &mut Cx) -> CaseResult {
     let mut a: [F; K] = base();
     let mut b = a;
@@ -163,16 +269,111 @@ pub fn mixed<F: ApproxS, C: ApproxC<F, K>, const K: usize>(t: &mut Tape, cx: &mu
             differing += 1;
         }
     }
-    let eps = eps_set::<F>()[t.below(7)];
-    let rel = rel_set::<F>()[t.below(5)];
-    let ulps = ULPS_SET[t.below(6)];
-    sample!(cx, "{}<{}> eps={:?} max_relative={:?} max_ulps={} a={:?} b={:?}", C::NAME, F::NAME, eps, rel, ulps, a, b);
-    let mut seen = Seen { t: false, f: false };
-    judge::<F, C, K>(cx, &a, &b, eps, rel, ulps, &mut seen)?;
-    cx.label(match differing { 0 => "0-differing", 1 => "1-differing", 2 => "2-differing", _ => "3+-differing" });
-    if seen.t && differing > 0 { cx.label("differing-but-within-tolerance"); }
+    let (eps, rel, ulps) = if t.chance(96) {
+        cx.label("unusual-tolerances");
+        (eps_wide::<F>()[t.below(N_EPS_W)], rel_wide::<F>()[t.below(N_REL_W)], ULPS_WIDE[t.below(N_ULPS_W)])
+    } else {
+        (eps_set::<F>()[t.below(7)], rel_set::<F>()[t.below(5)], ULPS_SET[t.below(6)])
+    };
+    // operand form: 0 = two objects, 1 = the same object on both sides, 2 = a bitwise copy of it
+    let form = if t.chance(64) { 1 + t.below(2) } else { 0 };
+    if form != 0 {
+        // both sides hold a's values (whatever kinds were drawn: NaN, inf, zeros, subnormal, MAX, ...)
+        b = a;
+    }
+    sample!(cx, "{}<{}> eps={:?} max_relative={:?} max_ulps={} operands={} a={:?} b={:?}", C::NAME, F::NAME, eps, rel, ulps, ["two objects", "the same object", "bitwise copy"][form], a, b);
+    let mut seen = Seen::default();
+    let (ca, cb) = (C::mkf(&a), C::mkf(&b));
+    let o = match form {
+        1 => Ops { l: &ca, r: &ca, a: &a, b: &a, form: "the same object" },
+        2 => Ops { l: &ca, r: &cb, a: &a, b: &b, form: "bitwise copy" },
+        _ => Ops { l: &ca, r: &cb, a: &a, b: &b, form: "two objects" },
+    };
+    judge_ops(cx, &o, eps, rel, ulps, &mut seen)?;
+    j_peq(cx, &o)?;
+    cx.label(["two-objects", "same-object", "bitwise-copy"][form]);
+    if form == 0 {
+        cx.label(match differing { 0 => "0-differing", 1 => "1-differing", 2 => "2-differing", _ => "3+-differing" });
+        if seen.t && differing > 0 { cx.label("differing-but-within-tolerance"); }
+    } else if seen.f {
+        cx.label("not-equal-to-itself");
+    }
     if seen.f { cx.label("some-predicate-false"); }
-    cx.set_nontrivial(differing > 0);
+    cx.set_nontrivial(if form == 0 { differing > 0 } else { seen.f });
+    Ok(())
+}
+
+// ---------------------------------------------------------------------------------------------
+// The same object on both sides
+
+pub const SPECIALS: usize = 14;
+fn special<F: ApproxS>(k: usize) -> (F, &'static str) {
+    let z = F::f(0.0);
+    match k {
+        0 => (F::NAN, "lane-nan"),
+        1 => (F::neg_nan(), "lane-nan"),
+        2 => (F::INF, "lane-inf"),
+        3 => (z - F::INF, "lane-inf"),
+        4 => (z, "lane-zero"),
+        5 => (F::f(-0.0), "lane-zero"),
+        6 => (F::tiny(), "lane-subnormal"),
+        7 => (z - F::tiny(), "lane-subnormal"),
+        8 => (F::MINPOS, "lane-min-positive"),
+        9 => (F::MAXV, "lane-max"),
+        10 => (z - F::MAXV, "lane-max"),
+        11 => (F::f(1.0), "lane-ordinary"),
+        12 => (F::f(-1.5), "lane-ordinary"),
+        _ => (F::f(1e-10), "lane-ordinary"),
+    }
+}
+pub const ALIAS_BGS: u64 = 2;
+
+/// idx = (p * SPECIALS + k) * 2 + bg: lane p holds special value k; the other lanes are distinct
+/// ordinary values (bg 0) or hold the same special value (bg 1). `v.op(&v)`, `v.op(&copy_of_v)` and
+/// the approx front-end macros, all tolerances (ordinary and unusual).
+pub fn aliased<F: ApproxS, C: ApproxC<F, K>, const K: usize>(idx: u64, cx: &mut Cx) -> CaseResult {
+    let bg = idx % ALIAS_BGS;
+    let k = ((idx / ALIAS_BGS) % SPECIALS as u64) as usize;
+    let p = (idx / ALIAS_BGS / SPECIALS as u64) as usize;
+    let (x, label) = special::<F>(k);
+    let mut a: [F; K] = if bg == 0 { base() } else { [x; K] };
+    a[p] = x;
+    // bg 1: one ordinary lane at position p+1 so the value still sits at an identifiable place
+    if bg == 1 && K > 1 {
+        a[(p + 1) % K] = F::f(1.75);
+    }
+    let ca = C::mkf(&a);
+    let copy = ca;
+    sample!(cx, "{}<{}> v.op(&v) and v.op(&copy), v={:?} (special value at position {}), all tolerances", C::NAME, F::NAME, a, p);
+    cx.label(label);
+    cx.label(if bg == 0 { "others-ordinary" } else { "others-special-too" });
+    let mut seen = Seen::default();
+    let mut seen_ordinary = Seen::default();
+    for (o, form_label) in [
+        (Ops { l: &ca, r: &ca, a: &a, b: &a, form: "the same object" }, "same-object"),
+        (Ops { l: &ca, r: &copy, a: &a, b: &a, form: "bitwise copy" }, "bitwise-copy"),
+        (Ops { l: &copy, r: &ca, a: &a, b: &a, form: "bitwise copy, swapped" }, "bitwise-copy"),
+    ] {
+        cx.label(form_label);
+        for eps in eps_set::<F>() {
+            j_abs(cx, &o, eps, &mut seen_ordinary)?;
+            for rel in rel_set::<F>() {
+                j_rel(cx, &o, eps, rel, &mut seen_ordinary)?;
+            }
+            for ulps in ULPS_SET {
+                j_ulps(cx, &o, eps, ulps, &mut seen_ordinary)?;
+            }
+        }
+        judge_ops(cx, &o, F::default_epsilon(), F::default_max_relative(), F::default_max_ulps(), &mut seen_ordinary)?;
+        judge_wide(cx, &o, &mut seen)?;
+        judge_macros(cx, &o)?;
+        j_peq(cx, &o)?;
+    }
+    if seen_ordinary.f { cx.label("not-equal-to-itself(ordinary-tolerances)"); }
+    if seen.f { cx.label("not-equal-to-itself(unusual-tolerance)"); }
+    if seen.t || seen_ordinary.t { cx.label("equal-to-itself"); }
+    // an identity early-out (`ptr::eq` / bitwise compare) shows iff some predicate is false on (v, v)
+    cx.set_nontrivial(seen.f || seen_ordinary.f);
     Ok(())
 }
 
@@ -193,13 +394,92 @@ macro_rules! tables {
 /// 13 vector types (146 positions), 6 matrices (58 positions), quaternion (4).
 pub const POSITIONS: u64 = 146 + 58 + 4;
 pub const ONE_LANE_TOTAL: u64 = POSITIONS * KINDS as u64 * 2;
+pub const ALIASED_TOTAL: u64 = POSITIONS * SPECIALS as u64 * ALIAS_BGS;
 
 pub fn one_lane_all<F: ApproxS>(idx: u64, cx: &mut Cx) -> CaseResult {
     let tab: Vec<(u64, IdxFn)> = tables!(one_lane, F, IdxFn).iter().map(|(n, f)| (*n as u64 * KINDS as u64 * 2, *f)).collect();
+    dispatch(idx, &tab, cx)
+}
+pub fn aliased_all<F: ApproxS>(idx: u64, cx: &mut Cx) -> CaseResult {
+    let tab: Vec<(u64, IdxFn)> = tables!(aliased, F, IdxFn).iter().map(|(n, f)| (*n as u64 * SPECIALS as u64 * ALIAS_BGS, *f)).collect();
     dispatch(idx, &tab, cx)
 }
 pub fn mixed_all<F: ApproxS>(t: &mut Tape, cx: &mut Cx) -> CaseResult {
     let tab = tables!(mixed, F, TapeFn);
     let k = t.below(tab.len());
     (tab[k].1)(t, cx)
+}
+
+// ---------------------------------------------------------------------------------------------
+// AbsDiffEq of integer containers (approx implements it for the primitive integers; Relative / Ulps are float-only)
+
+pub trait AbsI: Sc + AbsDiffEq<Epsilon = Self> {
+    /// (x, y) such that neither x - y nor its absolute value overflows (approx's signed impl computes `abs(x - y)`)
+    fn pairs() -> Vec<(Self, Self)>;
+    fn epsilons() -> Vec<Self>;
+    fn benign(i: usize) -> Self;
+}
+macro_rules! absi_signed { ($($t:ident)+) => { $(impl AbsI for $t {
+    fn pairs() -> Vec<(Self, Self)> {
+        vec![(0, 0), (5, 5), (5, 6), (5, 7), (-3, 3), (50, -50), ($t::MAX, $t::MAX), ($t::MIN, $t::MIN), ($t::MAX, $t::MAX - 1), (0, $t::MAX), ($t::MIN, $t::MIN + 1), ($t::MIN, -1), ($t::MAX, 0), (-1, -1)]
+    }
+    fn epsilons() -> Vec<Self> { vec![0, 1, 2, 6, 200.min($t::MAX as i64) as $t, $t::MAX - 1, $t::MAX, -1, $t::MIN] }
+    fn benign(i: usize) -> Self { (i as $t % 100) - 50 }
+})+ } }
+absi_signed!(i8 i32 i64);
+macro_rules! absi_unsigned { ($($t:ident)+) => { $(impl AbsI for $t {
+    fn pairs() -> Vec<(Self, Self)> {
+        vec![(0, 0), (5, 5), (5, 6), (5, 7), (3, 9), (0, 200), ($t::MAX, $t::MAX), ($t::MAX, $t::MAX - 1), (0, $t::MAX), ($t::MAX, 1), (1, 0), ($t::MAX / 2, $t::MAX / 2 + 1), (7, 7), (0, 1)]
+    }
+    fn epsilons() -> Vec<Self> { vec![0, 1, 2, 6, 200, $t::MAX - 1, $t::MAX, $t::MAX / 2, 199] }
+    fn benign(i: usize) -> Self { (i % 100) as $t }
+})+ } }
+absi_unsigned!(u8 u32 u64);
+pub const INT_PAIRS: usize = 14;
+
+pub trait AbsC<T: AbsI, const K: usize>: Flat<T, K> + PartialEq + AbsDiffEq<Epsilon = T> {}
+impl<T: AbsI, const K: usize, C> AbsC<T, K> for C where C: Flat<T, K> + PartialEq + AbsDiffEq<Epsilon = T> {}
+
+/// idx = p * INT_PAIRS + pair: position p holds the pair (both orders), the other positions are equal;
+/// when the pair is (x, x) the same-object and bitwise-copy forms are judged too. All epsilons (signed: negative too).
+pub fn int_abs<T: AbsI, C: AbsC<T, K>, const K: usize>(idx: u64, cx: &mut Cx) -> CaseResult {
+    let pairs = T::pairs();
+    let (x, y) = pairs[(idx % INT_PAIRS as u64) as usize];
+    let p = (idx / INT_PAIRS as u64) as usize;
+    let mut a = [x; K];
+    for i in 0..K { a[i] = T::benign(i); }
+    let mut b = a;
+    a[p] = x;
+    b[p] = y;
+    sample!(cx, "{}<{}> abs_diff_eq, position {}: a={:?} b={:?}, all epsilons", C::NAME, T::NAME, p, a, b);
+    check!(cx, C::default_epsilon() == T::default_epsilon(), "{}<{}>::default_epsilon() = {:?}, scalar's is {:?}", C::NAME, T::NAME, C::default_epsilon(), T::default_epsilon());
+    let (ca, cb) = (C::mkf(&a), C::mkf(&b));
+    let copy = ca;
+    let mut forms: Vec<(&C, &C, &[T; K], &[T; K], &'static str)> = vec![(&ca, &cb, &a, &b, "two objects"), (&cb, &ca, &b, &a, "two objects, swapped")];
+    if x == y {
+        forms.push((&ca, &ca, &a, &a, "the same object"));
+        forms.push((&ca, &copy, &a, &a, "bitwise copy"));
+        cx.label("same-object");
+    } else {
+        cx.label("one-position-differs");
+    }
+    let mut saw_false = false;
+    for (l, r, la, rb, form) in forms {
+        for eps in T::epsilons() {
+            let want = (0..K).all(|i| T::abs_diff_eq(&la[i], &rb[i], eps));
+            saw_false |= !want;
+            check_eq!(cx, l.abs_diff_eq(r, eps), want, "{}<{}>::abs_diff_eq [{}] eps={:?} a={:?} b={:?}", C::NAME, T::NAME, form, eps, la, rb);
+            check_eq!(cx, l.abs_diff_ne(r, eps), !want, "{}<{}>::abs_diff_ne [{}] eps={:?} a={:?} b={:?}", C::NAME, T::NAME, form, eps, la, rb);
+        }
+        check_eq!(cx, *l == *r, la == rb, "{}<{}>: `==` [{}] a={:?} b={:?}", C::NAME, T::NAME, form, la, rb);
+        check_eq!(cx, *l != *r, la != rb, "{}<{}>: `!=` [{}] a={:?} b={:?}", C::NAME, T::NAME, form, la, rb);
+    }
+    if saw_false { cx.label("some-epsilon-decides-false"); }
+    cx.set_nontrivial(saw_false);
+    Ok(())
+}
+pub const INT_ABS_TOTAL: u64 = POSITIONS * INT_PAIRS as u64;
+pub fn int_abs_all<T: AbsI>(idx: u64, cx: &mut Cx) -> CaseResult {
+    let tab: Vec<(u64, IdxFn)> = tables!(int_abs, T, IdxFn).iter().map(|(n, f)| (*n as u64 * INT_PAIRS as u64, *f)).collect();
+    dispatch(idx, &tab, cx)
 }
